@@ -1,7 +1,9 @@
 """C16 plan (see lib/plan.py for the format)."""
 from plan import R, D, M, stages
+import fuzzstage
 
 PLAN = dict(
+    extra={"thorough": [fuzzstage.diff_stage(6, "C16")]},
     **stages(
         quick=[(R, "quick", 16), (D, "small", 16)],
         thorough=[(R, "thorough", 16), (D, "quick", 16), (M, "mini", 8)],
